@@ -31,7 +31,7 @@ EQUALS == 61
 BSLASH == 92
 
 RefSet   == {BSLASH, COLON, EQUALS}     \* a quoter that satisfies the property on this grammar
-CodedSet == {BSLASH, COLON}             \* endpoints.quoteStringArgument as coded
+CodedSet == {BSLASH, COLON, EQUALS}     \* endpoints.quoteStringArgument as coded (since fix b86a94a; before: {BSLASH, COLON})
 
 VARIABLES cfg, text, phase, desc, pos, m
 vars == <<cfg, text, phase, desc, pos, m>>
